@@ -12,7 +12,7 @@
 
     KnownClass (decidable, computed by [classes_of] in the state an operation is applied to):
     [PayloadTimeField], [LimitNotReapplied], [MarkOfLastFrame], [EventNotAboveMark], [RawStreamDuplicates],
-    [SegmentOlderThanEvent]. *)
+    [SegmentOlderThanEvent], [InterruptedRefresh]. *)
 From Coq Require Import NArith List Bool Permutation.
 From Snel Require Import Model.Materialize Proofs.MaterializeProofs.
 Import ListNotations.
@@ -20,19 +20,19 @@ Open Scope N_scope.
 
 (** In a state reached through operations none of which falls into a known class, every SHOW returns exactly
     the events the live query selects at that moment, each once (whatever the arrival order of its own delta). *)
-Theorem C14_show_eq_query_reach : forall st name ch st' out nf m,
+Theorem C14_show_eq_query_reach : forall st name ch st' out nf m c,
   reach st ->
-  step st (OShow name ch) = (st', ObsShow out nf m) ->
+  step st (OShow name ch) = (st', ObsShow out nf m c) ->
   exists en, lookup name (st_entries st) = Some en /\
     Permutation out (sel (n_q en) (st_layout st)) /\ NoDup (map e_k out).
 Proof. exact show_eq_query_reach. Qed.
 Print Assumptions C14_show_eq_query_reach.
 
 (** The same with the SHOW itself outside the classes (the form the history theorem below iterates). *)
-Theorem C14_show_eq_query_core : forall st name ch st' out nf m,
+Theorem C14_show_eq_query_core : forall st name ch st' out nf m c,
   reach st ->
   classes_of st (OShow name ch) = [] ->
-  step st (OShow name ch) = (st', ObsShow out nf m) ->
+  step st (OShow name ch) = (st', ObsShow out nf m c) ->
   exists en, lookup name (st_entries st) = Some en /\
     Permutation out (sel (n_q en) (st_layout st)) /\ NoDup (map e_k out).
 Proof. exact show_eq_query_core. Qed.
@@ -45,7 +45,8 @@ Theorem C14_stored_below_mark : forall st, reach st ->
   forall name en, In (name, en) (st_entries st) ->
     core_q (n_q en) /\
     Permutation (concat (n_frames en))
-      (filter (below (n_q en) (frames_mark (n_frames en))) (content (st_layout st))).
+      (filter (below (n_q en) (frames_mark (n_frames en))) (content (st_layout st))) /\
+    mle (n_cat en) (frames_mark (n_frames en)) = true.
 Proof. exact reach_inv. Qed.
 Print Assumptions C14_stored_below_mark.
 
@@ -62,14 +63,59 @@ Proof. exact monotone_clock_not_late. Qed.
 Print Assumptions C14_monotone_clock_suffices.
 
 (** Repeating SHOW with no new data returns the same rows, appends no frame and leaves the mark. *)
-Theorem C14_show_idempotent : forall st name ch1 ch2 st1 out1 nf1 m1 st2 out2 nf2 m2,
+Theorem C14_show_idempotent : forall st name ch1 ch2 st1 out1 nf1 m1 c1 st2 out2 nf2 m2 c2,
   reach st -> good_op st (OShow name ch1) ->
-  step st (OShow name ch1) = (st1, ObsShow out1 nf1 m1) ->
+  step st (OShow name ch1) = (st1, ObsShow out1 nf1 m1 c1) ->
   classes_of st1 (OShow name ch2) = [] ->
-  step st1 (OShow name ch2) = (st2, ObsShow out2 nf2 m2) ->
-  Permutation out2 out1 /\ nf2 = [] /\ m2 = m1.
+  step st1 (OShow name ch2) = (st2, ObsShow out2 nf2 m2 c2) ->
+  Permutation out2 out1 /\ nf2 = [] /\ m2 = m1 /\ c2 = c1.
 Proof. exact show_idempotent. Qed.
 Print Assumptions C14_show_idempotent.
+
+(** Faults during SHOW.  SHOW persists in two steps: delta frames are appended to the store while the response
+    streams, the catalog entry (with its own copy of the mark) is rewritten only after the response was written.
+    [OShowFail]: the client hung up (or the process died) in between — any duplicate-free selection of the delta
+    batches has been appended, the catalog entry is untouched ([C14_failed_show_state]).  Outside the known
+    classes the invariant survives (the catalog mark never runs ahead of the store's, the next SHOW filters
+    against the store's mark), so after a failed SHOW and any further good operations — STOREs, FLUSH,
+    compaction, restart, more failed SHOWs — every SHOW again returns exactly the live selection, each event
+    once. *)
+Theorem C14_failed_show_then_show_exact : forall st name ch1 st1 ap m1 c1 ops st2 name2 ch2 st3 out nf m c,
+  reach st -> good_op st (OShowFail name ch1) ->
+  step st (OShowFail name ch1) = (st1, ObsShowFailed ap m1 c1) ->
+  no_known st1 ops -> st2 = fold_left (fun s o => fst (step s o)) ops st1 ->
+  step st2 (OShow name2 ch2) = (st3, ObsShow out nf m c) ->
+  exists en, lookup name2 (st_entries st2) = Some en /\
+    Permutation out (sel (n_q en) (st_layout st2)) /\ NoDup (map e_k out).
+Proof. exact failed_show_then_show_exact. Qed.
+Print Assumptions C14_failed_show_then_show_exact.
+
+Theorem C14_failed_show_state : forall st name ch st' ap m c en,
+  lookup name (st_entries st) = Some en ->
+  step st (OShowFail name ch) = (st', ObsShowFailed ap m c) ->
+  c = n_cat en /\ m = frames_mark (n_frames en ++ ap) /\
+  lookup name (st_entries st') = Some (mkEntry (n_q en) (n_frames en ++ ap) (n_cat en)).
+Proof. exact failed_show_state. Qed.
+Print Assumptions C14_failed_show_state.
+
+(** … but NOT for every interruption: if the aborted refresh appended a batch and left out one holding a row
+    that is not above the appended batch's mark, that row is never delivered again. *)
+Theorem C14_refuted_InterruptedRefresh : witness_of InterruptedRefresh w_interrupted.
+Proof. exact show_eq_query_refuted_interrupted. Qed.
+Print Assumptions C14_refuted_InterruptedRefresh.
+
+(** the hypotheses are satisfiable: three failed SHOWs (nothing appended / whole delta appended / the older of two
+    batches appended), catalog mark behind the store's mark, every later SHOW exact *)
+Theorem C14_failed_show_example : no_known init ex_fail_ops /\
+  map (fun o => match o with
+                | ObsShow out _ m c => (map e_k out, m, c)
+                | ObsShowFailed ap m c => (map e_k (concat ap), m, c)
+                | _ => ([], (0, 0), (0, 0)) end) (run init ex_fail_ops)
+  = [ ([], (0, 0), (0, 0)); ([], (0, 0), (0, 0)); ([], (10, 100), (10, 100)); ([], (0, 0), (0, 0));
+      ([2], (11, 200), (10, 100)); ([1; 2], (11, 200), (10, 100)); ([], (0, 0), (0, 0));
+      ([3], (12, 300), (10, 100)); ([1; 2; 3; 4], (13, 400), (13, 400)); ([1; 2; 3; 4], (13, 400), (13, 400)) ].
+Proof. exact (conj ex_fail_no_known ex_fail_outputs). Qed.
+Print Assumptions C14_failed_show_example.
 
 (** REMEMBER under an existing name is rejected and changes nothing; under a fresh name it is not rejected. *)
 Theorem C14_remember_dup_rejected : forall st name q ch en,
@@ -132,7 +178,7 @@ Print Assumptions C14_no_class_is_good.
 (** the hypotheses are satisfiable by a non-trivial history (two shards, flush, re-zoning, an event on the
     high-water second, WHERE / FOR / SINCE, a rejected second REMEMBER, four SHOWs) *)
 Theorem C14_outside_known_example : no_known init ex_ops /\
-  map (fun o => match o with ObsShow out _ _ => map e_k out | ObsRejected => [99] | _ => [] end) (run init ex_ops)
+  map (fun o => match o with ObsShow out _ _ _ => map e_k out | ObsRejected => [99] | _ => [] end) (run init ex_ops)
   = [[]; []; [99]; []; [1; 3]; []; [1; 3; 4]; [1; 3; 4]; []; [1; 3; 4; 6]].
 Proof. exact (conj ex_no_known ex_outputs). Qed.
 Print Assumptions C14_outside_known_example.
